@@ -372,3 +372,83 @@ func init() {
 		panic(engineErr("bytes.TrimSpace of symbolic bytes with unknown edges"))
 	}
 }
+
+// bytes.Buffer holding symbolic content: once symbolic bytes are written into a buffer its content is kept as pieces
+// in a side table (the real struct cannot hold them); purely concrete buffers run the real code.
+var symBuffers = map[*value]*sbuf{}
+
+func init() {
+	bufOf := func(a value) (*value, *sbuf) {
+		p, ok := a.(*value)
+		if !ok {
+			return nil, nil
+		}
+		return p, symBuffers[p]
+	}
+	concreteContent := func(p *value) string {
+		s := derefStruct(p, "bytes.Buffer") // buf []byte, off int, lastRead
+		b, _ := s[0].([]value)
+		off := int(asInt64(s[1]))
+		if off > len(b) {
+			off = len(b)
+		}
+		return bytesToString(b[off:])
+	}
+	intrinsics["(*bytes.Buffer).Write"] = func(fr *frame, a []value) value {
+		p, sb := bufOf(a[0])
+		arg, isSymArg := a[1].(symBytes)
+		if p == nil || (sb == nil && !isSymArg) {
+			return notHandled{}
+		}
+		if sb == nil {
+			sb = &sbuf{ps: []piece{{s: concreteContent(p)}}}
+			symBuffers[p] = sb
+		}
+		if isSymArg {
+			sb.ps = append(sb.ps, toPiece(bytesText(arg)))
+			return tuple{0, iface{}}
+		}
+		b := a[1].([]value)
+		sb.ps = append(sb.ps, piece{s: bytesToString(b)})
+		return tuple{len(b), iface{}}
+	}
+	intrinsics["(*bytes.Buffer).Bytes"] = func(fr *frame, a []value) value {
+		_, sb := bufOf(a[0])
+		if sb == nil {
+			return notHandled{}
+		}
+		return symBytes{str: joinPieces(sb.ps)}
+	}
+	intrinsics["(*bytes.Buffer).String"] = func(fr *frame, a []value) value {
+		_, sb := bufOf(a[0])
+		if sb == nil {
+			return notHandled{}
+		}
+		return joinPieces(sb.ps)
+	}
+	intrinsics["bytes.TrimSuffix"] = func(fr *frame, a []value) value {
+		sb, ok := a[0].(symBytes)
+		suf, okc := a[1].([]value)
+		if !ok || !okc {
+			return notHandled{}
+		}
+		suffix := bytesToString(suf)
+		txt := bytesText(sb)
+		if ss, isSym := txt.(symStr); isSym {
+			if ps, known := strStruct[ss.t]; known && len(ps) > 0 && !ps[len(ps)-1].sym {
+				last := ps[len(ps)-1].s
+				if strings.HasSuffix(last, suffix) {
+					cp := append([]piece(nil), ps[:len(ps)-1]...)
+					cp = append(cp, piece{s: strings.TrimSuffix(last, suffix)})
+					return symBytes{str: joinPieces(cp)}
+				}
+				if len(last) >= len(suffix) {
+					return sb // ends with a literal that is not the suffix
+				}
+			}
+			st, sp := ss.t, smtStrLit(suffix)
+			return symBytes{str: symStr{"(ite (str.suffixof " + sp + " " + st + ") (str.substr " + st + " 0 (- (str.len " + st + ") (str.len " + sp + "))) " + st + ")"}}
+		}
+		return notHandled{}
+	}
+}
